@@ -8,6 +8,7 @@ import Chrono.Proofs.DeltaDisplayL
 import Chrono.Proofs.DeltaOpsL
 import Chrono.Proofs.DeltaCanonL
 import Chrono.Proofs.DeltaCanonUniqL
+import Chrono.Proofs.DeltaSerdeL
 
 namespace Chrono.Props.C06
 open Chrono Chrono.M Chrono.Spec Chrono.Proofs Chrono.Extracted
@@ -228,8 +229,12 @@ theorem op_mul_exact (a : Delta) (k : Int) (ha : DInv a) (hk : -2147483648 ≤ k
     Delta.mul a k = if nsInRange (ns a * k) then .ok (ofNs (ns a * k)) else .panic :=
   DeltaOps.op_mul_exact' a k ha hk
 
-/-- `a / k`: a panic exactly when `k = 0` (for every pair, valid or not); otherwise a value in range
-less than two nanoseconds from the exact quotient -/
+/-- `a / 0` panics for every pair `(secs, nanos)`, valid or not (no hypothesis at all; second audit G4) -/
+theorem op_div_zero (a : Delta) : Delta.div a 0 = .panic := DeltaOps.op_div_zero' a
+
+/-- `a / k` for a valid `a` and an `i32` `k`: a panic exactly when `k = 0`; otherwise a value in range less
+than two nanoseconds from the exact quotient.  (Both branches are stated under `DInv a`; that the zero
+divisor panics whatever the dividend is `op_div_zero`.) -/
 theorem op_div_spec (a : Delta) (k : Int) (ha : DInv a) (hk : -2147483648 ≤ k ∧ k ≤ 2147483647) :
     (k = 0 → Delta.div a k = .panic) ∧
     (k ≠ 0 → ∃ r, Delta.div a k = .ok r ∧ DInv r ∧ (ns r * k - ns a).natAbs < 2 * k.natAbs) := by
@@ -355,6 +360,29 @@ theorem closed_constructors (secs nanos n : Int) (hnanos : 0 ≤ nanos)
   · intro r hr; rw [s] at hr; exact (DeltaOps.ok_ite_inv _ r hr).1
   · intro r hr; rw [ms] at hr; exact (DeltaOps.ok_ite_inv _ r hr).1
   · intro hs hn9 r hr; exact (DeltaOps.from_std_inv secs nanos hs ⟨hnanos, hn9⟩ r hr).1
+
+/-- the deserialising constructor (`impl Deserialize for TimeDelta`: `new(secs, nanos as u32)` on the
+`(i64, i32)` tuple serde hands over — the one constructor that receives the nanosecond field signed), for
+every secs and every `i32` nanos: the pair itself exactly when it is a valid value, refused otherwise — a
+negative nanosecond field wraps to at least 2³¹ and is refused, never reinterpreted; so a deserialised value
+satisfies the invariant (second audit G3; rkyv's derived `Deserialize` and `Arbitrary` are not modelled) -/
+theorem deserialize_spec (secs nanos : Int) (hn : -2147483648 ≤ nanos ∧ nanos ≤ 2147483647) :
+    Delta.deserialize secs nanos =
+      (if 0 ≤ nanos ∧ nanos < 1000000000 ∧ nsInRange (ns ⟨secs, nanos⟩) then some ⟨secs, nanos⟩ else none) ∧
+    (∀ r, Delta.deserialize secs nanos = some r → DInv r ∧ r = ⟨secs, nanos⟩) := by
+  have h := DeltaSerde.deserialize_spec' secs nanos hn
+  refine ⟨h, fun r hr => ?_⟩
+  rw [h] at hr
+  by_cases hc : 0 ≤ nanos ∧ nanos < 1000000000 ∧ nsInRange (ns ⟨secs, nanos⟩)
+  · rw [ite_pos' _ _ hc] at hr; cases hr; exact ⟨hc, rfl⟩
+  · rw [ite_neg' _ _ hc] at hr; cases hr
+
+/-- non-vacuity: the range ends are accepted, one nanosecond beyond and every negative field refused -/
+example : Delta.deserialize 9223372036854775 807000000 = some Delta.MAX ∧
+    Delta.deserialize (-9223372036854776) 193000000 = some Delta.MIN ∧
+    Delta.deserialize 9223372036854775 807000001 = none ∧ Delta.deserialize 0 (-1) = none ∧
+    Delta.deserialize 0 (-2147483648) = none ∧ Delta.deserialize 0 1000000000 = none ∧
+    Delta.deserialize (-1) 999999999 = some ⟨-1, 999999999⟩ := by decide
 
 /-- non-vacuity: each antecedent of `closed` is met (results at both range ends) -/
 example : Delta.checked_add Delta.MIN ⟨0, 1⟩ = .ok (some ⟨-9223372036854776, 193000001⟩) ∧
